@@ -452,7 +452,24 @@ def _has_num(n):
     return any(isinstance(m, Num) for m in walk([n]))
 
 
-ALL = [numbers_to_names, implicit_vs_explicit, unbracketed_vs_bracketed, ellipsis_vs_written_out, scalar_vs_tuple_size, named_vs_anonymous_ellipsis, adjacent_brackets,
+def ambiguous_implicit_output(case):
+    """documented: 'einx.add("a b, b a")  # Raises exception: Cannot determine output expression' - dropping the
+    output of an element-wise call whose inputs do not contain a unique superset expression must be rejected."""
+    if case.family != "elementwise" or case.outputs is None or len(case.inputs) < 2:
+        return []
+
+    def names_of(e):
+        return {n.name for n in walk(e) if isinstance(n, Ax)} | {n.uid for n in walk(e) if isinstance(n, Num) and n.value != 1}
+
+    ns = [names_of(e) for e in case.inputs]
+    texts = [pr(e) for e in case.inputs]
+    parents = [i for i in range(len(ns)) if all(ns[j] <= ns[i] for j in range(len(ns)) if j != i)]
+    if len(parents) == 0 or len({texts[i] for i in parents}) > 1:
+        return [("ambiguous-implicit-output-rejected", _call(case, outputs=None), "MUST-RAISE:SemanticError")]
+    return []
+
+
+ALL = [ambiguous_implicit_output, numbers_to_names, implicit_vs_explicit, unbracketed_vs_bracketed, ellipsis_vs_written_out, scalar_vs_tuple_size, named_vs_anonymous_ellipsis, adjacent_brackets,
        keepdims_vs_parentheses, rearrange_vs_id, unit_coordinate_bracket, argfind_unit_bracket, nested_arrow]
 
 
